@@ -15,9 +15,14 @@ class Prop:
                    'no rules file: rules are set by data on the real ProcessRules / ApplicationRules; no status formula',
                    'the local instance is not the Master (the running-failure branch of fsm.on_process_state_event is '
                    'C06 matter); failure_handler is not involved',
-                   'spec evaluator: requests made for one process by the user (start_process / stop_process / '
-                   'restart_process) are outside the sequencing statements (sticky per process); host loss counts as '
-                   'given up from Context.invalidate_failed on',
+                   'spec evaluator (Coq, on the observed trace only): a request is outstanding from its emission until the '
+                   'property counts it done or given up (RUNNING / expected exit with wait_exit / failing report / forced '
+                   'state published / host lost / abort); at every application-level request all outstanding requests '
+                   'must carry the same sequence number (process and application level), sequence numbers may only '
+                   'go the wrong way when a further plan was requested, stop groups are emitted in one step, stops only '
+                   'go where the process is listed; requests made for one process by the user (start_process / '
+                   'stop_process / restart_process) are outside the sequencing statements (one mark per request, '
+                   'consumed by the next request for that process)',
                    'ordering is proved per step of the agenda machine for every state (SEQ-shape: extremal group, only '
                    'when nothing is current) and for every run for the emission facts; the history-level statements '
                    'application_order / job_bound are refuted (known findings), start_request_order at history level is '
